@@ -1,5 +1,6 @@
 import Req.Driver.Proto
 import Req.Pool.Cancel
+import Req.Pool.CancelPool
 /-!
 Driver lanes of C08.
 
@@ -12,6 +13,11 @@ Driver lanes of C08.
   injection point, cancel, explore EVERY maximal run of internal steps (then let a detached
   background dial finish and, if the wait ignores the context, let the timer fire), and answer
   with the observed outcome if the model allows it, else with the first outcome it does allow.
+* `c08snap <MaxConnsPerHost> <connsPerHost[k]> <connsPerHostWait[k] flags> <idleConnWait[k] flags> <idle conns>`
+  — one in-package sample of the real HTTP/1.1 pool for one connection key (queue flags front
+  first, `w` = still waiting, `d` = done, `-` = empty queue), judged by `CancelPool.Sample.verdict`
+  (`Props.C08Pool.sample_ok`: `ok` on every reachable model state): `ok | over-limit | stranded |
+  handoff-lost`.
 -/
 namespace Req.Driver.L.C08
 open Req.Proto Req.Cancel
@@ -214,7 +220,20 @@ def laneLife : List String → String
     | _, _, _, _, _, _, _, _, _ => "bad-op"
   | _ => "bad-op"
 
+def parseFlags (s : String) : Option (List Bool) :=
+  if s == "-" then some []
+  else s.toList.mapM fun c => if c == 'w' then some true else if c == 'd' then some false else none
+
+def laneSnap : List String → String
+  | [mx, cph, dw, iw, idle] =>
+    match mx.toInt?, cph.toNat?, parseFlags dw, parseFlags iw, idle.toNat? with
+    | some m, some c, some d, some i, some n =>
+      (Req.Pool.CancelPool.Sample.verdict ⟨m, c, d, i, n⟩).show
+    | _, _, _, _, _ => "bad-op"
+  | _ => "bad-op"
+
 def lanes : List (String × (List String → String)) := [
+  ("c08snap", laneSnap),
   ("c08maperr", laneMapErr),
   ("c08retry", laneRetry),
   ("c08life", laneLife)
